@@ -222,6 +222,7 @@ func enumerate(fn *ssa.Function, opt LeafOptions, cx *callCtx, cut bool) ([]*Lea
 		mem    localMem
 		cuts   []Cut
 		bs     bstate
+		hp     heapMem
 	}
 	priv := map[ssa.Value]bool{}
 	var err error
@@ -308,6 +309,7 @@ func enumerate(fn *ssa.Function, opt LeafOptions, cx *callCtx, cut bool) ([]*Lea
 			}
 			st.bind = nb
 			st.mem = localMem{}
+			st.hp = heapMem{}
 			st.cuts = append(append([]Cut{}, st.cuts...), Cut{Header: blk, NG: len(st.guards), NE: len(st.eff)})
 		} else if pred != nil && cx != nil {
 			pi := -1
@@ -382,8 +384,8 @@ func enumerate(fn *ssa.Function, opt LeafOptions, cx *callCtx, cut bool) ([]*Lea
 			}
 			return b
 		}
-		var process func(i int, guards []*Term, eff []Effect, bind map[ssa.Value]*Term, mem localMem, cuts []Cut, bs bstate)
-		process = func(i int, guards []*Term, eff []Effect, bind map[ssa.Value]*Term, mem localMem, cuts []Cut, bs bstate) {
+		var process func(i int, guards []*Term, eff []Effect, bind map[ssa.Value]*Term, mem localMem, cuts []Cut, bs bstate, hp heapMem)
+		process = func(i int, guards []*Term, eff []Effect, bind map[ssa.Value]*Term, mem localMem, cuts []Cut, bs bstate, hp heapMem) {
 			if err != nil {
 				return
 			}
@@ -412,6 +414,29 @@ func enumerate(fn *ssa.Function, opt LeafOptions, cx *callCtx, cut bool) ([]*Lea
 					case *ssa.Store:
 						if al := baseAlloc(x.Addr); al != nil && private(al, priv) {
 							mem = mem.store(b.Addr(x.Addr), b.Term(x.Val))
+						} else if a := b.Addr(x.Addr); !isLocalLoc(a) {
+							hp = hp.store(a, b.Term(x.Val))
+						}
+					case *ssa.MapUpdate:
+						hp = hp.storeCell(b.Term(x.Map), b.Term(x.Key), b.Term(x.Value))
+					case *ssa.Lookup:
+						if len(hp) > 0 {
+							if _, isMap := x.X.Type().Underlying().(*types.Map); isMap {
+								cell := &Term{Op: OLookup, Args: []*Term{b.Term(x.X), b.Term(x.Index)}}
+								if v := hp.load(cell); v != nil {
+									if x.CommaOk {
+										setBind(x, &Term{Op: "tuple", Args: []*Term{v, Const(constant.MakeBool(true), types.Typ[types.Bool])}})
+									} else {
+										setBind(x, v)
+									}
+								}
+							}
+						}
+					case ssa.CallInstruction:
+						if len(hp) > 0 {
+							if _, isBuiltin := x.Common().Value.(*ssa.Builtin); !isBuiltin && !keepsHeap(x.Common().StaticCallee()) {
+								hp = heapMem{} // the callee may write what was stored
+							}
 						}
 					case *ssa.Slice:
 						// a slice of a private array whose cells were all stored earlier in this block (a slice literal) is its element list
@@ -424,6 +449,11 @@ func enumerate(fn *ssa.Function, opt LeafOptions, cx *callCtx, cut bool) ([]*Lea
 								if v := mem.load(b.Addr(x.X), x.Type()); v != nil {
 									setBind(x, v)
 								}
+							}
+						}
+						if x.Op == token.MUL && len(hp) > 0 {
+							if v := hp.load(b.Addr(x.X)); v != nil {
+								setBind(x, v)
 							}
 						}
 					}
@@ -536,7 +566,7 @@ func enumerate(fn *ssa.Function, opt LeafOptions, cx *callCtx, cut bool) ([]*Lea
 							} else {
 								nb[call] = &Term{Op: "tuple", Args: rets}
 							}
-							process(i+1, ng, ne, nb, mem, ncuts, nbs)
+							process(i+1, ng, ne, nb, mem, ncuts, nbs, heapMem{}) // the callee may have written: nothing is known about the heap
 						}
 						return
 					}
@@ -581,7 +611,7 @@ func enumerate(fn *ssa.Function, opt LeafOptions, cx *callCtx, cut bool) ([]*Lea
 				}
 				out = append(out, lf)
 			case *ssa.Jump:
-				walk(blk.Succs[0], blk, state{phi, guards, eff, blocks, bind, mem, cuts, bs})
+				walk(blk.Succs[0], blk, state{phi, guards, eff, blocks, bind, mem, cuts, bs, hp})
 			case *ssa.If:
 				c := b.Term(t.Cond)
 				if debugInline && onPath[blk] > 1 {
@@ -596,7 +626,7 @@ func enumerate(fn *ssa.Function, opt LeafOptions, cx *callCtx, cut bool) ([]*Lea
 					if !keep {
 						continue
 					}
-					walk(succ, blk, state{phi, gs, eff, blocks, bind, mem, cuts, bs})
+					walk(succ, blk, state{phi, gs, eff, blocks, bind, mem, cuts, bs, hp})
 				}
 			case *ssa.Panic:
 				err = fmt.Errorf("%s: explicit panic at block %d", fn.String(), blk.Index)
@@ -604,7 +634,7 @@ func enumerate(fn *ssa.Function, opt LeafOptions, cx *callCtx, cut bool) ([]*Lea
 				err = fmt.Errorf("%s: unexpected terminator %T", fn.String(), last)
 			}
 		}
-		process(0, st.guards, st.eff, st.bind, st.mem, st.cuts, st.bs)
+		process(0, st.guards, st.eff, st.bind, st.mem, st.cuts, st.bs, st.hp)
 	}
 	bind0 := map[ssa.Value]*Term{}
 	if cx != nil {
@@ -614,7 +644,7 @@ func enumerate(fn *ssa.Function, opt LeafOptions, cx *callCtx, cut bool) ([]*Lea
 			}
 		}
 	}
-	walk(fn.Blocks[0], nil, state{phi: map[*ssa.Phi]ssa.Value{}, bind: bind0, mem: localMem{}, bs: bstate{}})
+	walk(fn.Blocks[0], nil, state{phi: map[*ssa.Phi]ssa.Value{}, bind: bind0, mem: localMem{}, bs: bstate{}, hp: heapMem{}})
 	if err != nil {
 		return nil, err
 	}
